@@ -8,13 +8,16 @@ import time
 
 import z3
 
-from vlib import common, refmodel as M, emlctx
+from vlib import common, refmodel as M, emlctx, pathwise
 from vlib.common import Report
 from vlib.pybmc import Interp, Sym, Unsupported, zand, znot, zor
 from vlib.dfa_enc import run_dfa
 
 PROP = "C17"
 BV = 12
+PATH_CAP = 4000
+PATH_BUDGET = 120
+MIN_RUNG = 3
 WIDE = ("datasetRule", "dataTableRule", "otherEntityRule", "physicalRule", "attributeRule")
 
 
@@ -85,38 +88,63 @@ def encode(job):
     if len(alpha) != len(M.symbols(spec)):
         res["skip"] = "rule names a child more than once (outside the property's quantifier)"
         return res
-    it = Interp(bv=BV, logic="QF_BV", seed=sd)
-    for a in alpha:
-        it.intern.code(a)
-    it.intern.code("")
-    names = [it.name("n%d" % i) for i in range(L)]
-    new = it.name("new")
-    known = lambda z: z3.Or([z == it.intern.code(a) for a in alpha]) if alpha else z3.BoolVal(False)
-    it.solver.add(zand(*[known(n.z) for n in names]))
-    it.solver.add(it.intern.domain(new.z))
-    Node.store.clear()
-    parent = Node(emlctx.element_for_rule(rule_name) or "x", id="p")
-    kids = []
-    for i, nm in enumerate(names):
-        k = Node("?", id="c%d" % i)
-        k._name = nm
-        k._parent = parent
-        kids.append(k)
-    parent._children = kids
-    child = Node("?", id="new")
-    child._name = new
     r = R.Rule(rule_name)
-    try:
+
+    def make(**kw):
+        return Interp(bv=BV, logic="QF_BV", seed=sd, **kw)
+
+    def body(it):
+        for a in alpha:
+            it.intern.code(a)
+        it.intern.code("")
+        names = [it.name("n%d" % i) for i in range(L)]
+        new = it.name("new")
+        it.solver.add(zand(*[zor(*[n.z == it.intern.code(a) for a in alpha]) for n in names]))
+        Node.store.clear()
+        parent = Node(emlctx.element_for_rule(rule_name) or "x", id="p")
+        kids = []
+        for i, nm in enumerate(names):
+            k = Node("?", id="c%d" % i)
+            k._name = nm
+            k._parent = parent
+            kids.append(k)
+        parent._children = kids
+        child = Node("?", id="new")
+        child._name = new
         ret = it.call(r.child_insert_index, [parent, child], {})
-        normal = it.g
-        esc = list(it.sinks[0])
-        it.g = z3.BoolVal(True)
-        it.sinks[0] = []
-        allowed = it.call(r.is_allowed_child, [new], {})
-        esc2 = list(it.sinks[0])
+        return {"ret": ret, "names": names, "new": new}
+
+    def body2(it):
+        for a in alpha:
+            it.intern.code(a)
+        it.intern.code("")
+        new = it.name("new")
+        return {"ret": it.call(r.is_allowed_child, [new], {})}
+    try:
+        view = pathwise.run(make, body, max_paths=PATH_CAP, budget_s=PATH_BUDGET)
+        view2 = pathwise.run(make, body2, max_paths=PATH_CAP, budget_s=PATH_BUDGET)
     except Unsupported as e:
         res["unsupported"] = str(e)
         return res
+    it = view.q
+    for a in alpha:
+        it.intern.code(a)
+    res["mode"] = view.mode
+    res["paths"] = view.paths
+    names = [Sym(z3.BitVec("n%d" % i, BV), "name") for i in range(L)]
+    new = Sym(z3.BitVec("new", BV), "name")
+    known = lambda z: z3.Or([z == it.intern.code(a) for a in alpha]) if alpha else z3.BoolVal(False)
+    it.solver.add(zand(*[known(n.z) for n in names]))
+    it.solver.add(it.intern.domain(new.z))
+    ret = view.ret
+    normal = view.normal
+    esc = view.esc
+    allowed = view2.ret
+    esc2 = view2.esc
+    # the second run's symbols live in its own solver: bring its definitions over (merged mode names terms)
+    if view2.q is not it:
+        for a in view2.q.solver.assertions():
+            it.solver.add(a)
     refused = zor(*[g for g, e in esc if isinstance(e, ChildNotAllowedError)])
     other = zor(*([g for g, e in esc if not isinstance(e, ChildNotAllowedError)] + [g for g, e in esc2]))
     rz = ret.z if isinstance(ret, Sym) else it.mkint(ret if ret is not None else -1)
@@ -144,8 +172,9 @@ def encode(job):
         "breaks_declared_order": zand(normal, ordered, breaks_order),
         "allowed_query_wrong": z3.Xor(az, is_useful),
         "neither_index_nor_refusal": znot(zor(normal, refused, other)),
-        "unwinding": zor(*it.incomplete),
-        "overflow": zor(*it.overflow),
+        "path_coverage_hole": zor(view.coverage_hole, view2.coverage_hole),
+        "unwinding": zor(*(view.incomplete + view2.incomplete)),
+        "overflow": zor(*(view.overflow + view2.overflow)),
     }
     t1 = time.time()
 
@@ -167,8 +196,8 @@ def encode(job):
             m = s.model()
             res["twins"][qn + "_model"] = decode(m) + ((it.val(m.eval(rz, model_completion=True)),) if qn == "reach_index" else ())
     res["t_solve"] = time.time() - t1
-    res["stats"] = {k: (round(v, 3) if isinstance(v, float) else v) for k, v in it.stats.items()}
-    res["functions"] = sorted(it.encoded)
+    res["stats"] = {k: (round(v, 3) if isinstance(v, float) else v) for k, v in view.stats.items()}
+    res["functions"] = sorted(view.functions | view2.functions)
     return res
 
 
@@ -193,6 +222,8 @@ def run(tier, only=None):
                        "'keeps children in the rule's declared order' is asserted when the existing children are themselves in declared order"]
     rep.stubs = ["list.index on a concrete list with a symbolic element: ite chain + ValueError record"]
     skipped = []
+    stepped_down = []
+    pw = []
     validated = 0
     for status, job, r in common.pool_map(encode, jobs):
         rn, L, _ = job
@@ -205,8 +236,13 @@ def run(tier, only=None):
             continue
         rep.encodings += 1
         if "unsupported" in r:
-            rep.inconclusive.append("%s: unsupported construct: %s" % (tag, r["unsupported"]))
+            if "exceeded its budget" in r["unsupported"] and L > MIN_RUNG:
+                stepped_down.append(tag)          # bound ladder: this length is outside what the run covered
+            else:
+                rep.inconclusive.append("%s: unsupported construct: %s" % (tag, r["unsupported"]))
             continue
+        if r.get("mode", "merged") != "merged":
+            pw.append({"case": tag, "paths": r["paths"]})
         rep.functions.update(r["functions"])
         rep.solver_time += r["t_solve"] + r["stats"].get("t_check", 0)
         for qn, v in list(r["verdicts"].items()) + [(k, v) for k, v in r["twins"].items() if not k.endswith("_model")]:
@@ -215,7 +251,7 @@ def run(tier, only=None):
             if v == "unknown":
                 rep.inconclusive.append("%s: query %s unknown" % (tag, qn))
             elif v == "sat":
-                if qn in ("unwinding", "overflow"):
+                if qn in ("unwinding", "overflow", "path_coverage_hole"):
                     rep.inconclusive.append("%s: %s obligation open" % (tag, qn))
                     continue
                 seq, new = r["cex"][qn]
@@ -242,6 +278,8 @@ def run(tier, only=None):
         if L >= 2:
             rep.sample({"rule": rn, "L": L, "verdicts": r["verdicts"], "index_example": tw.get("reach_index_model")}, cap=8)
     rep.extra["rules_skipped_duplicate_names"] = sorted(set(skipped))
+    rep.extra["bound_ladder_stepped_down"] = stepped_down[:50]
+    rep.extra["pathwise_encodings"] = {"count": len(pw), "examples": pw[:5]}
     rep.extra["traces_validated_against_impl"] = validated
     rep.extra["source_fingerprint"] = common.src_fingerprint()
     return rep.finish()
